@@ -72,10 +72,11 @@ theorem unique_spec (l : List Int) :
     IsSortedSetOf (Np.unique l) (fun v => Int.ofNat v ∈ l) :=
   Lemmas.unique_spec l
 
-/-- `_index_of` on any (unsorted) duplicate-free lookup: position of each element. -/
+/-- `_index_of` on any (unsorted) duplicate-free lookup, ids of any magnitude: position of each element
+IN THE LOOKUP AS GIVEN (`positionsIn`, not the rank among the sorted lookup values). -/
 theorem indexOf_spec (arr : List Int) (lookup : List Nat) (hl : lookup.Nodup)
     (ha : ∀ a ∈ arr, 0 ≤ a ∧ a.toNat ∈ lookup) :
-    Np.indexOf arr lookup = some (arr.map fun a => Int.ofNat (lookup.idxOf a.toNat)) :=
+    Np.indexOf arr lookup = some (positionsIn arr lookup) :=
   Lemmas.indexOf_spec arr lookup hl ha
 
 /-- `_flatten_per_cluster`: sorted union of the groups.  (The real helper raises `ValueError` on an
@@ -118,6 +119,11 @@ example : FitsDtype 16 false [7, 2, 7, 0, 2, 7] := by unfold FitsDtype; decide
 example : wrapDiff 8 false 200 100 = 156 := by decide   -- unsigned differences DO wrap when unsorted
 example : groupedMean [10, 20, 30, 40] [3, 1, 3, 1] = some [(60, 2), (40, 2)] := by decide
 example : groupedMeanQ [10, 20, 31, 40] [3, 1, 3, 1] = some [30, 41 / 2] := by decide +kernel
+-- unsorted lookups: the position in the lookup as given, not the rank of the value; large sparse ids
+example : Np.indexOf [7, 2, 7, 0] [7, 0, 2] = some [0, 2, 0, 1] := by decide
+example : positionsIn [7, 2, 7, 0] [7, 0, 2] = [0, 2, 0, 1] := by decide
+example : positionsIn [1000000, 0, 16777221] [1000000, 16777221, 0] = [0, 2, 1] := by decide
+example : [1000000, 16777221, 0].Nodup := by decide
 -- supplied ids: increasing ids give increasing groups, unsorted ids do not (and are not sorted)
 example : spikesPerCluster 32 true [1, 0, 1] (some [10, 20, 30]) = [(0, [20]), (1, [10, 30])] := by decide
 example : spikesPerCluster 32 true [1, 0, 1] (some [30, 20, 10]) = [(0, [20]), (1, [30, 10])] := by decide
